@@ -28,6 +28,7 @@ class Store:
         self.conds = conds
         self.node = node
         self.loops = loops  # enclosing loop symbols, outermost first
+        self.op = None  # None for plain assignment, else the AugAssign operator name ('Add', 'Mult', ...)
 
 
 class KernelSummary:
@@ -73,13 +74,16 @@ def summarize(model, func, env=None, call_hook=None, stmts=None):
                 if not is_tuple(idx):
                     idx = (idx,)
                 acc = isinstance(node, ast.AugAssign)
+                opname = None
                 if acc:
-                    # value is old + v (binop result); recover the increment
-                    old = self.ev(tgt, st)
-                    val = T.sub(val, old) if isinstance(val, T.Poly) and isinstance(old, T.Poly) else val
+                    # record the operand of the in-place update, not old (op) operand
+                    val = self.ev(node.value, st)
+                    opname = type(node.op).__name__
                     if not isinstance(node.op, ast.Add):
-                        raise Unrecognised("kernel accumulates with %s" % type(node.op).__name__, node)
-                ks.stores.append(Store(arr, tuple(idx), acc, val, list(st.conds), node, list(stack)))
+                        acc = False
+                store = Store(arr, tuple(idx), acc, val, list(st.conds), node, list(stack))
+                store.op = opname
+                ks.stores.append(store)
                 return
             return VN.assign(self, tgt, val, st, node)
 
